@@ -165,7 +165,7 @@ func c04Configs(tier string) []c04Cfg {
 	return out
 }
 
-var c04ColNames = []string{"a", "b", "c3"}
+var c04ColNames = []string{"a", "devId", "c3"} // the second column carries upper-case letters
 
 func c04SQL(set c04Set, kind string) string {
 	var sel, grp []string
